@@ -1,6 +1,6 @@
 (* C17 - matrix inversion: property theorems (statements only; proofs live in Proofs/) *)
 From Coq Require Import QArith List Arith.
-From TW Require Import GJModel GJSum GJProof3 GJProof5 GJComplete LSQ LSQDegenerate.
+From TW Require Import GJModel GJSum GJProof3 GJProof5 GJComplete GJConverse3 LSQ LSQDegenerate.
 Import ListNotations.
 Open Scope Q_scope.
 
@@ -24,6 +24,21 @@ Theorem C17_inv_complete : forall n a (v : nat -> Q), square n a ->
   inv_gj a = Singular.
 Proof. exact inv_gj_null_vector_singular. Qed.
 Print Assumptions C17_inv_complete.
+
+(* ... and ONLY then: a Singular verdict comes with an explicit non-trivial null vector of the input *)
+Theorem C17_inv_singular_only_for_singular : forall n a, square n a -> inv_gj a = Singular ->
+  exists w : nat -> Q, (exists x, (x < n)%nat /\ ~ w x == 0) /\
+    forall i, (i < n)%nat -> vsum (seq 0 n) (fun j => mnth a i j * w j) == 0.
+Proof. exact inv_gj_singular_has_null_vector. Qed.
+Print Assumptions C17_inv_singular_only_for_singular.
+
+(* total on regular input: a square matrix without non-trivial null vector is inverted (for every order) *)
+Theorem C17_inv_total_on_regular : forall n a, square n a ->
+  (forall w : nat -> Q, (forall i, (i < n)%nat -> vsum (seq 0 n) (fun j => mnth a i j * w j) == 0) ->
+                        forall x, (x < n)%nat -> w x == 0) ->
+  exists X, inv_gj a = Ok X.
+Proof. exact inv_gj_total_on_regular. Qed.
+Print Assumptions C17_inv_total_on_regular.
 
 (* a regular result is only produced for square input *)
 Theorem C17_inv_ok_only_square : forall a x, inv_gj a = Ok x -> square (length a) a.
